@@ -76,7 +76,7 @@ def cases(rng, tier):
             for s2 in small:
                 for s3 in small:
                     yield {"sets": [s1, s2, s3], "alpha": AB, "kt": "list"}
-    n = 300 if tier == "quick" else 4000
+    n = 2000 if tier == "quick" else 8000
     alphas = [["a", "b", "c"], ["x", "y"], ["a", "b", "c", "d", "é", "日"], ["0", "1"]]
     for _ in range(n):
         alpha = rng.choice(alphas)
